@@ -38,6 +38,10 @@ type force struct {
 	paramKind       string
 	changesUntilPct int
 	attachPct       int
+	// exactly one parameter change, on the first key frame at or after singleChangePct percent of the media;
+	// the client is attached attachAfterChangeMs later (while the segment the change opened is still open)
+	singleChangePct     int
+	attachAfterChangeMs int
 }
 
 func fixedScenarios() []force {
@@ -77,6 +81,12 @@ func fixedScenarios() []force {
 		{name: "late-h265-sps-only-fmp4", variant: 2, tracks: []tcfgA{opus(0, 0), vid(kH265, 4)}, target: "index", paramEveryKey: true, paramKind: "sps", changesUntilPct: 35, attachPct: 60, gop: 8},
 		{name: "late-av1-sequence-header-fmp4", variant: 2, tracks: []tcfgA{vid(kAV1, 0)}, target: "index", paramEveryKey: true, changesUntilPct: 35, attachPct: 60, gop: 8},
 		{name: "late-vp9-resolution-ll", variant: 3, tracks: []tcfgA{vid(kVP9, 0)}, target: "index", paramEveryKey: true, changesUntilPct: 35, attachPct: 60, gop: 8},
+		// finding F27: Low-Latency, one isolated parameter change, client attached 250 ms later: the segment the
+		// change opened (SegmentMinDuration 1 s) is still open, its parts are advertised, the init is the old one
+		{name: "f27-ll-h264-pps-forced-segment-open", variant: 3, tracks: []tcfgA{vid(kH264, 1)}, target: "index", paramKind: "pps", singleChangePct: 50, attachAfterChangeMs: 250, gop: 8, segMin: 1000e6, partMin: 100e6, mediaMs: 5000},
+		{name: "f27-ll-h265-sps-forced-segment-open", variant: 3, tracks: []tcfgA{vid(kH265, 0), aac(48000, 0, 0, false)}, target: "index", paramKind: "sps", singleChangePct: 50, attachAfterChangeMs: 250, gop: 8, segMin: 1000e6, partMin: 100e6, mediaMs: 5000},
+		{name: "f27-ll-av1-forced-segment-open", variant: 3, tracks: []tcfgA{vid(kAV1, 0)}, target: "media:0", singleChangePct: 50, attachAfterChangeMs: 250, gop: 8, segMin: 1000e6, partMin: 100e6, mediaMs: 5000},
+		{name: "f27-ll-vp9-forced-segment-open", variant: 3, tracks: []tcfgA{vid(kVP9, 0)}, target: "index", singleChangePct: 50, attachAfterChangeMs: 250, gop: 8, segMin: 1000e6, partMin: 100e6, mediaMs: 5000},
 		{name: "ts-h264-short-segments", variant: 1, tracks: []tcfgA{vid(kH264, 1)}, target: "media:0", segMin: 250e6},
 	}
 }
@@ -285,6 +295,13 @@ func genPair(seed uint64, id int, f *force) pairDesc {
 	if f != nil {
 		paramKind = f.paramKind
 	}
+	singleChangeFromNs := int64(-1)
+	if f != nil && f.singleChangePct != 0 {
+		paramChanges, paramProb = true, 1
+		changesUntilNs = int64(1) << 62
+		singleChangeFromNs = int64(p.MediaMs) * 1e6 * int64(f.singleChangePct) / 100
+	}
+	singleChangeDone := false
 	for i, t := range tracks {
 		s := &st[i]
 		s.params = psetOfID(t.Params0)
@@ -348,7 +365,16 @@ func genPair(seed uint64, id int, f *force) pairDesc {
 			a.RA = key
 			a.NonIDR = !key
 			if a.RA {
-				if paramChanges && tsNs(s.dts, t.Rate)-startNs < changesUntilNs && r.Bool(1, paramProb) {
+				rel := tsNs(s.dts, t.Rate) - startNs
+				allowed := rel < changesUntilNs
+				if singleChangeFromNs >= 0 {
+					allowed = !singleChangeDone && rel >= singleChangeFromNs
+					if allowed {
+						singleChangeDone = true
+						p.AttachMs = int(rel/1e6) + f.attachAfterChangeMs
+					}
+				}
+				if paramChanges && allowed && r.Bool(1, paramProb) {
 					kind := paramKind
 					if kind == "" {
 						kind = []string{"pps", "sps", "vps", "all"}[r.Intn(4)]
